@@ -21,7 +21,7 @@ func init() {
 		fd := x.Func("http", "Service", "runQueue")
 		found := fd != nil
 		idxLoop, idxClose, nClose := -1, -1, 0
-		breakUnderNilErr, otherBreaks, execCalls := 0, 0, 0
+		breakUnderNilErr, otherBreaks, execCalls, loopReturns := 0, 0, 0, 0
 		retryDelayNs, retryOK := int64(0), false
 		if fd != nil {
 			ast.Inspect(fd.Body, func(n ast.Node) bool {
@@ -45,20 +45,44 @@ func init() {
 							if f, ok := t.Body.List[0].(*ast.ForStmt); ok && f.Cond == nil {
 								idxLoop = i
 								execCalls = len(x.Calls(f.Body, "Execute"))
-								ast.Inspect(f.Body, func(m ast.Node) bool {
-									if is, ok := m.(*ast.IfStmt); ok {
-										for _, b := range is.Body.List {
-											if br, ok := b.(*ast.BranchStmt); ok && br.Tok == token.BREAK {
-												if x.Src(is.Cond) == "err == nil" {
-													breakUnderNilErr++
-												} else {
-													otherBreaks++
+								// every `break` that leaves THIS loop (not one inside a nested for/switch/select),
+								// wherever it sits: then-branch, else-branch, bare block
+								var walk func(n ast.Node, underNilErr bool)
+								walk = func(n ast.Node, underNilErr bool) {
+									switch t := n.(type) {
+									case nil:
+									case *ast.BlockStmt:
+										for _, b := range t.List {
+											walk(b, underNilErr)
+										}
+									case *ast.IfStmt:
+										walk(t.Body, x.Src(t.Cond) == "err == nil")
+										if t.Else != nil {
+											walk(t.Else, false)
+										}
+									case *ast.BranchStmt:
+										if t.Tok == token.BREAK || t.Tok == token.GOTO {
+											if underNilErr && t.Tok == token.BREAK && t.Label == nil {
+												breakUnderNilErr++
+											} else {
+												otherBreaks++
+											}
+										}
+									case *ast.ReturnStmt:
+										loopReturns++
+									case *ast.SelectStmt:
+										for _, cc := range t.Body.List {
+											for _, b := range cc.(*ast.CommClause).Body {
+												if _, isBr := b.(*ast.BranchStmt); !isBr { // a bare break here leaves the select only
+													walk(b, false)
 												}
 											}
 										}
+									case *ast.LabeledStmt:
+										walk(t.Stmt, underNilErr)
 									}
-									return true
-								})
+								}
+								walk(f.Body, false)
 							}
 						}
 					case *ast.ExprStmt:
@@ -84,6 +108,7 @@ func init() {
 		x.Raw("def executeCallsInLoop : Nat := " + itoa(execCalls))
 		x.Raw("def breaksUnderNilErr : Nat := " + itoa(breakUnderNilErr))
 		x.Raw("def otherBreaksInLoop : Nat := " + itoa(otherBreaks))
+		x.Raw("def returnsInLoop : Nat := " + itoa(loopReturns))
 		x.DefOptInt("retryDelayNs", retryDelayNs, retryOK)
 
 		// queuedExecute
